@@ -128,6 +128,18 @@ def _gen_cases(tier, seed):
                          # every kind of part after a dense first part, and longer sums
                          [["tensor", "sptensor"], ["tensor", "tensor", "sptensor", "ttensor"], ["tensor", "ktensor", "sptensor"], ["sptensor", "tensor"]][(i // 4) % 4]),
                "rdims": r, "cdims": c}
+    # Tucker tensors with a sparse core under every pattern of factor aspects (fewer rows than columns: the core is larger than the
+    # tensor in that mode; square and not the identity; more rows than columns), three-way
+    for pat3 in itertools.product(("wide", "square", "tall"), repeat=3):
+        csz = [int(rng.integers(2, 4)) for _ in range(3)]
+        shp = tuple({"wide": c - 1, "square": c, "tall": c + 1}[a] for a, c in zip(pat3, csz))
+        core = gen.sparsify(rng, gen.normals(rng, tuple(csz)), "some")
+        tf = [gen.normals(rng, (s_, c_)) for s_, c_ in zip(shp, csz)]
+        w, fm = gen.rand_ktensor_parts(rng, shp, 2)
+        yield {"w": "structured", "shape": list(shp), "R": 2, "weights": w.tolist(), "factors": [f.tolist() for f in fm], "core": core.tolist(),
+               "tfactors": [f.tolist() for f in tf], "sparse_core": True, "dense": gen.normals(rng, shp).tolist(),
+               "sparse": gen.sparsify(rng, gen.normals(rng, shp), "some").tolist(), "parts": ["ttensor", "tensor"], "rdims": [0], "cdims": [1, 2],
+               "aspects": "/".join(pat3)}
     # 1-way and rank-1 corners, always present
     for shp in [(1,), (2,), (4,), (1, 1), (3, 1), (1, 2, 1)]:
         for R in (1, 2):
